@@ -3,37 +3,40 @@ package main
 // Abstraction of SHA-256 (and of Ed25519 in the harnesses) by uninterpreted
 // functions made injective with inverse-function axioms.
 //
-//	SHA256(m) = shaF(shaC(... shaC(IV, block_1) ..., block_k), last, len)
+//	SHA256(m) = sha_<len(m)>(m[0:1], m[1:33], m[33:65], ...)
 //
-// where the blocks are the full 64-byte blocks of m, "last" is the remaining
-// bytes zero-padded to 64 and len is the message length. Each application
-// gets the ground axioms  inv(sha(x)) = x  (one per argument) and
-// shaC(..) != IV, which make SHA256 injective on messages: exactly the
-// collision-resistance assumption, and nothing else is assumed about it.
+// one function symbol per message length, whose arguments are the first byte
+// and then the following bytes in 32-byte pieces (so that the two children of
+// a Merkle node, and a record behind its domain-separation byte, are whole
+// arguments). Each application gets the ground axioms inv_i(sha_n(x)) = x_i
+// (one per argument) and shaLen(sha_n(x)) = n, which make SHA-256 injective on
+// messages: exactly the collision-resistance assumption, and nothing else is
+// assumed about it. Equalities between two applications are decomposed
+// structurally by the term layer (TermTable.Eq), which is the same fact.
 
 import (
 	"crypto/sha256"
 	"fmt"
+	"strconv"
+	"strings"
 	"go/types"
 	"math/big"
 
 	"golang.org/x/tools/go/ssa"
 )
 
-var shaIV = mkBigConst(256, big.NewInt(0))
 
 func uf_axioms(s *Solver, app *Term) {
 	tt := s.tt
 	switch app.name {
-	case "shaC":
-		s.AssertGlobal(tt.Eq(tt.App("shaC_inv0", 256, app), app.args[0]))
-		s.AssertGlobal(tt.Eq(tt.App("shaC_inv1", 512, app), app.args[1]))
-		s.AssertGlobal(tt.Not(tt.Eq(app, shaIV)))
-	case "shaF":
-		s.AssertGlobal(tt.Eq(tt.App("shaF_inv0", 256, app), app.args[0]))
-		s.AssertGlobal(tt.Eq(tt.App("shaF_inv1", 512, app), app.args[1]))
-		s.AssertGlobal(tt.Eq(tt.App("shaF_inv2", 64, app), app.args[2]))
 	default:
+		if isShaApp(app.name) {
+			for i, a := range app.args {
+				s.AssertGlobal(tt.Eq(tt.App(fmt.Sprintf("%s_inv%d", app.name, i), a.w, app), a))
+			}
+			n, _ := strconv.Atoi(app.name[4:])
+			s.AssertGlobal(tt.Eq(tt.App("shaLen", 64, app), mkConst(64, uint64(n))))
+		}
 		if len(app.name) > 4 && app.name[:4] == "inj_" {
 			// generic injective function declared by a harness (vUF): one inverse per argument
 			for i, a := range app.args {
@@ -102,12 +105,20 @@ func (in *Interp) sha256Term(msg []*Term) *Term {
 		return mkBigConst(256, v)
 	}
 	tt := in.tt
-	state := shaIV
-	i := 0
-	for ; i+64 <= len(msg); i += 64 {
-		state = tt.App("shaC", 256, state, in.packBytes(msg[i:i+64], 64))
+	var args []*Term
+	if len(msg) == 0 {
+		args = append(args, mkConst(8, 0))
+	} else {
+		args = append(args, msg[0])
+		for i := 1; i < len(msg); i += 32 {
+			j := i + 32
+			if j > len(msg) {
+				j = len(msg)
+			}
+			args = append(args, in.packBytes(msg[i:j], j-i))
+		}
 	}
-	res := tt.App("shaF", 256, state, in.packBytes(msg[i:], 64), mkConst(64, uint64(len(msg))))
+	res := tt.App(fmt.Sprintf("sha_%d", len(msg)), 256, args...)
 	in.shaTable()[res] = &shaInfo{msg: append([]*Term(nil), msg...)}
 	in.w.usedUF = true
 	return res
@@ -357,4 +368,8 @@ func (w *Worker) acyclicityHints() []*Term {
 		}
 	}
 	return out
+}
+
+func isShaApp(name string) bool {
+	return strings.HasPrefix(name, "sha_") && !strings.Contains(name, "_inv")
 }
